@@ -9,7 +9,7 @@ from . import core, geom
 
 LEVEL = "exploration"
 TECHNIQUE = "two-sided boundary oracle (accept iff within limit, no truncation) over parametric documents + depth-counter invariant via the context probe hook"
-LEVEL_TEXT = ("Held on the executions observed: for L in {1,2,3,10,100,1000} x {count, while, until, for, var length, nesting of 17 element "
+LEVEL_TEXT = ("Held on the executions observed: for L in {1,2,3,10,100,1000} and ~24 (quick) / ~400 (thorough) random limits in 4..220 x {count, while, until, for, var length, nesting of 17 element "
               "kinds and mixed} x {L-1, L, L+1} x {config, <config>}: accepted exactly when within the limit, with the full number of elements "
               "rendered; flat documents of up to 2000 siblings of every kind accepted; depth counter 0 after every transform. "
               "Exploration: limits and lengths are sampled parametrically around every boundary.")
@@ -40,6 +40,10 @@ FLAT_KINDS = {
 }
 
 
+EMBED = [("", ""), ('<if test="1">', "</if>"), ("<g>", "</g>"), ("<defs>", "</defs>"), ("<svg>", "</svg>"), ('<a href="x">', "</a>"), ('<g m="1" class="c">', "</g>"),
+         ('<loop count="1">', "</loop>"), ('<g><if test="1">', "</if></g>"), ('<if test="1"><defs>', "</defs></if>")]
+
+
 def limit_cfg(rng, key, L):
     """returns (cfg, prefix): the limit is given either by configuration or by a <config> element"""
     if rng.random() < 0.5:
@@ -52,7 +56,8 @@ def cases(ctx):
     rng = ctx.rng("cases")
     quick = ctx.quick()
     out = []
-    for L in LIMITS:
+    extra = sorted(set(rng.randint(4, 220) for _ in range(24 if quick else 400)) - set(LIMITS))
+    for L in LIMITS + extra:
         for delta in (-1, 0, 1):
             n = L + delta
             if n < 0:
@@ -81,6 +86,26 @@ def cases(ctx):
                     body, expect_n = '<loop count="%d"><loop count="%d"><rect xy="^|h" wh="1"/></loop></loop>' % (outer, n), outer * n
                 doc = "<svg>%s<rect wh=\"1\" id=\"first\"/>%s</svg>" % (pre, body)
                 out.append(dict(family="loop." + form, L=L, n=n, input=doc.encode(), cfg=cfg, accept=(n <= L), count=("rect", expect_n + 1), how=how))
+                # ---- the same loop embedded: inside a container, next to a sibling that fails on the first pass (forward
+                # reference, resolved on a later pass), with the loop's state declared outside the container. The limit must
+                # still decide alone: a limit error is final whatever else failed in the same pass.
+                if L <= 100 or form in ("while", "until"):
+                    decl, loop = ("", body)
+                    if body.startswith("<var k="):
+                        decl, loop = body[:len('<var k="0"/>')], body[len('<var k="0"/>'):]
+                    loop = loop.replace('xy="^|h"', 'xy="0 0"')
+                    for (o, c) in (EMBED if (L in (2, 3, 10) or L in extra[:6]) else EMBED[:3]):
+                        for sib in ("none", "fwdref"):
+                            cfg, pre, how = limit_cfg(rng, "loop", L)
+                            fw = '<rect id="fw" xy="#z|h" wh="1"/>' if sib == "fwdref" else ""
+                            if n > L:
+                                inner = decl + o + fw + loop + c       # loop state outside the (retried) container
+                            else:
+                                inner = o + fw + decl + loop + c       # accepted documents keep their state inside (C15 covers the other case)
+                            doc = '<svg>%s<rect wh="1" id="first"/>%s<rect id="z" wh="1"/></svg>' % (pre, inner)
+                            nm = o.replace(">", " ").replace("<", " ").split()[0] if o else "top"
+                            out.append(dict(family="loop.%s@%s%s" % (form, nm, "+fwdref" if fw else ""), L=L, n=n, input=doc.encode(), cfg=cfg, accept=(n <= L),
+                                            count=("rect", expect_n + 2 + (1 if fw else 0)), how=how))
             # ---- variable length
             cfg, pre, how = limit_cfg(rng, "var", L)
             for form in ("literal", "concat"):
